@@ -4,4 +4,8 @@ EXTENDS SioCrew, Json, SequencesExt
 Collect == (clean /\ nops = MaxOps) => TLCSet(1, TLCGet(1) \cup {hist})
 Post == LET q == SetToSeq(TLCGet(1)) IN ndJsonSerialize("histories.ndjson", [i \in DOMAIN q |-> [hist |-> q[i]]])
 ASSUME TLCSet(1, {})
+\* the typed copy with the inductive invariant (SioCrewInd.tla, discharged by Apalache) admits every step of this model:
+\* what is proved there for histories of any length holds here
+Ind == INSTANCE SioCrewInd
+RefinesInd == Ind!Spec
 =============================================================================
